@@ -346,6 +346,33 @@ def runtime_checks():
             or not torch.allclose(g5, torch.full((n, 1), -0.6, dtype=g5.dtype), rtol=0, atol=1e-6):
         bad.append(dict(case='lookup table of one condition filled in after construction', violated='another condition (built without a table) is '
                         're-routed too', first=g1.reshape(-1).tolist(), second=g2.reshape(-1).tolist(), third=g3.reshape(-1).tolist(), later=g5.reshape(-1).tolist()))
+    # extra columns of another type than the samples (an integer-valued index column, a float32 column in a float64 run): constructor
+    # values are used as given, whatever the un-named columns look like
+    t64 = lambda v: torch.full((n, 1), v, dtype=torch.float64)
+    thd = [c_.double() for c_ in th]
+    pdt = next(net.parameters()).dtype
+    net5 = lambda x: net(x.to(pdt)).double()
+    for what, first in (('int64 first column', torch.arange(n).reshape(n, 1)), ('float32 first column', th[0].float())):
+        try:
+            c = BundleIVP(t_0=0.3, u_0=1.9, u_0_prime=0.7, bundle_param_lookup={'u_0': 1})
+            tt_ = t64(0.3).requires_grad_()
+            u = c.enforce(lambda x: net5(x.double()), tt_, first, thd[1], thd[2])
+            du = diff(u, tt_).detach()
+            if not torch.allclose(u.detach(), thd[1], rtol=0, atol=1e-14) or not torch.allclose(du, t64(0.7), rtol=0, atol=1e-12):
+                bad.append(dict(case=f'un-named extra column of another type ({what})', violated='u(t_0) / u\'(t_0) are not the routed / constructor values',
+                                value_error=float((u.detach() - thd[1]).abs().max()), derivative=du.reshape(-1).tolist(), want_derivative=0.7))
+        except Exception as e:
+            bad.append(dict(case=f'un-named extra column of another type ({what})', error=f'{type(e).__name__}: {e}'))
+    # one condition object used in single precision first and in double precision afterwards (a float32 run re-checked in float64)
+    for mk, pts in ((lambda: BundleIVP(t_0=0.3, u_0=1.9, bundle_param_lookup={'u_0_prime': 0}, u_0_prime=None), ((0.3, 1.9),)),
+                    (lambda: BundleDirichletBVP(t_0=0.1, u_0=0.7, t_1=1.3, u_1=None, bundle_param_lookup={'u_1': 2}), ((0.1, 0.7),))):
+        c = mk()
+        for pt, want in pts:
+            c.enforce(lambda x: net(x.to(pdt)).float(), torch.full((n, 1), pt, dtype=torch.float32), *[c_.float() for c_ in th])
+            got = c.enforce(net5, t64(pt), *thd).detach()
+            if got.dtype != torch.float64 or not torch.allclose(got, t64(want), rtol=0, atol=1e-14):
+                bad.append(dict(case='condition used in float32 first, then in float64', condition=type(c).__name__, violated='constructor values are not '
+                                'reproduced to double precision', max_abs_error=float((got.double() - want).abs().max())))
     # rows whose u_0 dwarfs u_1: the right-end value is still exactly the row's u_1
     big = [torch.full((n, 1), 1.0e9), torch.full((n, 1), 1.25e-3), th[2]]
     c = BundleDirichletBVP(t_0=0.0, u_0=None, t_1=1.0, u_1=None, bundle_param_lookup={'u_0': 0, 'u_1': 1})
